@@ -55,10 +55,11 @@ def main(argv):
         st = selftest.run_for(pid)
         run.cov['selftest_seeds'] = len(st)
         run.cov['selftest_caught'] = sum(1 for v in st.values() if v == 'caught')
+        run.cov['selftest_silent_as_required'] = sum(1 for v in st.values() if v.startswith('silent'))
         for name, v in sorted(st.items()):
             run.note(f'selftest {name}: {v}')
-            if v == 'MISSED':
-                print(f'SELFTEST-MISS property={pid} seed={name}: the check no longer reports this seeded change (machinery regression, not a verdict on /repo)')
+            if v in ('MISSED', 'FALSE-ALARM'):
+                print(f'SELFTEST-{"MISS" if v == "MISSED" else "FALSE-ALARM"} property={pid} seed={name}: the check no longer behaves on this recorded change as required (machinery regression, not a verdict on /repo)')
     try:
         return mod.main(run)
     except Exception as e:   # fail closed, but say that it is the machinery
